@@ -432,6 +432,8 @@ def run(chk):
     c12_attr.part_attr(chk, drv, runner)
     import c12_prune
     c12_prune.part_prune(chk, drv, runner)
+    import c12_labels
+    c12_labels.part_labels(chk, drv, runner)
 
 
 def replay(chk, rep):
